@@ -1,6 +1,8 @@
 (* C17 — the REST server behaves as the document-store model, across restarts. *)
 From Coq Require Import List NArith ZArith Bool.
 From Syz Require Import Coll Rest RestProofs.
+(* the path indices of the handlers are below the segment counts their guards establish (regenerated from rest.go on this run) *)
+From Syz Require GenTablesOk.
 Import ListNotations.
 Open Scope N_scope.
 
